@@ -581,7 +581,7 @@ func c11Jobs(tier string) []string {
 			jobs = append(jobs, fmt.Sprintf("len:%s:%d/8", fam, i))
 		}
 	}
-	jobs = append(jobs, "big", "raw", "kinds")
+	jobs = append(jobs, "big", "raw", "kinds", "filter")
 	for i := 0; i < 8; i++ {
 		jobs = append(jobs, fmt.Sprintf("seq:%d/8", i))
 	}
@@ -689,6 +689,23 @@ func c11Run(job, tier string, deadline time.Time) *engine.Result {
 		}
 		r.Execs, r.Transitions, r.Nontrivial = 16, 16, 16
 		r.Sample(map[string]interface{}{"raw": "UDP length field vs IP payload length: payload {0,1,7,100} x trailing octets {0,1,4,17}"})
+	case "filter":
+		skipped := 0
+		for i := range c11Setups() {
+			n, f := c11Filter(i)
+			r.Execs++
+			r.Transitions += int64(n)
+			if f != nil && f.key == "skip" {
+				skipped++
+				r.Sample(map[string]interface{}{"filter_setup_not_supported": f.msg})
+				continue
+			}
+			r.Nontrivial++
+			report(f, map[string]interface{}{"job": job, "filter": i})
+		}
+		r.AddExtra("filter_setups", int64(len(c11Setups())))
+		r.AddExtra("filter_setups_not_supported", int64(skipped))
+		r.Sample(map[string]interface{}{"filter": "13 ways of binding/connecting a UDP socket x 7 senders (peer, other port, other address, other family) x 2 rounds, then Close and rebind"})
 	case "seq":
 		var i, n int
 		fmt.Sscanf(parts[1], "%d/%d", &i, &n)
@@ -712,6 +729,16 @@ func c11Replay(rp json.RawMessage) *engine.Violation {
 	var cr engine.CoopReplay
 	if json.Unmarshal(rp, &cr) == nil && strings.HasPrefix(cr.Job, "coop:") {
 		return engine.ReplayCoop(c11Harness(c11Progs[cr.Job[5:]]), cr.Choices)
+	}
+	var fl struct {
+		Job    string
+		Filter *int
+	}
+	if json.Unmarshal(rp, &fl) == nil && fl.Job == "filter" && fl.Filter != nil {
+		if _, f := c11Filter(*fl.Filter); f != nil && f.key != "skip" {
+			return &engine.Violation{Property: "C11", Kind: "udp", Key: f.key, Detail: f.msg}
+		}
+		return nil
 	}
 	var p struct {
 		Job  string
